@@ -1,8 +1,10 @@
 package route
 
 import (
+	"bytes"
 	"encoding/json"
 	"fmt"
+	"io"
 	"math/rand"
 	"net/http"
 	"sort"
@@ -520,6 +522,56 @@ func transportVariants(r *mon.Run, c *Case, b *Built, rq Req, o0 Outcome, k int)
 	}
 }
 
+// grpcLane re-sends a request's path in the gRPC-web and gRPC lanes (POST,
+// application/grpc-web+proto resp. application/grpc over HTTP/2, one empty
+// message): those lanes address methods by name, so a handler may only run
+// when the path IS the method's /package.Service/Method name; a path that
+// matches a rule's template must not reach the method without the fields
+// the template binds.
+func grpcLane(r *mon.Run, c *Case, b *Built, rq Req, k int) {
+	name := []string{"grpc-web", "grpc"}[k%2]
+	o := b.DoWith("POST", rq.Path, "", nil, func(req *http.Request) {
+		if name == "grpc" {
+			req.Proto, req.ProtoMajor, req.ProtoMinor = "HTTP/2.0", 2, 0
+			req.Header["Content-Type"] = []string{"application/grpc"}
+			req.Header["Te"] = []string{"trailers"}
+		} else {
+			req.Header["Content-Type"] = []string{"application/grpc-web+proto"}
+		}
+		req.Body = io.NopCloser(bytes.NewReader([]byte{0, 0, 0, 0, 0}))
+		req.ContentLength = 5
+	})
+	r.Count("grpc_lane_probes", 1)
+	if o.Panic != nil {
+		r.Violate(o.Panic.Key()+":"+name+"-lane", fmt.Sprintf("%s request for %s panicked: %s", name, rq.Path, o.Panic.Value), oneReq(c, rq))
+		return
+	}
+	if o.NCalls > 0 && o.Method != rq.Path {
+		r.Violate("unsound:"+name+"-lane-dispatched-on-rule-path:"+rq.Class, fmt.Sprintf("a %s request (empty message) for path %s ran the handler of %s with %s: that lane addresses methods by name", name, rq.Path, o.Method, o.MsgJSON), oneReq(c, rq))
+	}
+}
+
+// historyProbe sends the request's path with every other verb, then the
+// request itself again: what a request reaches is a function of the request
+// and the registered rules, not of what was asked before.
+func historyProbe(r *mon.Run, c *Case, b *Built, rq Req, o0 Outcome) {
+	for _, v := range []string{"GET", "PATCH", "POST", "DELETE", "PUT", "HEAD"} {
+		if v == rq.Verb {
+			continue
+		}
+		if o := b.Do(v, rq.Path, "", nil); o.Panic != nil {
+			r.Violate(o.Panic.Key()+":other-verb-on-known-path", fmt.Sprintf("%s %s panicked: %s", v, rq.Path, o.Panic.Value), oneReq(c, rq))
+			return
+		}
+	}
+	o := b.Do(rq.Verb, rq.Path, "", nil)
+	r.Count("request_history_probes", 1)
+	if !o.Same(o0) {
+		r.Violate("outcome-depends-on-earlier-requests:"+outcomeClass(o0)+"-vs-"+outcomeClass(o),
+			fmt.Sprintf("%s %s: first [%s]; again after the same path was requested with the other verbs [%s]", rq.Verb, rq.Path, o0, o), oneReq(c, rq))
+	}
+}
+
 func runCase(r *mon.Run, c *Case, prules []ParsedRule, built []*Built) {
 	caseSeq++
 	var seq []Outcome
@@ -537,6 +589,12 @@ func runCase(r *mon.Run, c *Case, prules []ParsedRule, built []*Built) {
 			}
 		} else if (caseSeq+qi)%5 == 0 {
 			transportVariants(r, c, built[0], rq, o0, (caseSeq+qi)/5)
+		}
+		if (caseSeq+qi)%3 == 2 || r.ReplayMode {
+			historyProbe(r, c, built[0], rq, o0)
+		}
+		if c.Prop == "C01" && ((caseSeq+qi)%4 == 1 || r.ReplayMode) {
+			grpcLane(r, c, built[0], rq, (caseSeq+qi)/4)
 		}
 		switch c.Prop {
 		case "C01":
